@@ -543,6 +543,35 @@ theorem turn_good {I : Inst α} {ok : Nat → Bool} {c H : Nat → α} {source :
       intro h; apply hvt; rw [htt, h]
     exact ⟨f', (mem_filter_ne _).2 ⟨hf', hne⟩⟩
 
+/-- `LoopHead I target sched s s'`: started at loop head `s` with schedule `sched`, the loop
+reaches loop head `s'` after some number of complete turns (each: accepted pop of a non-target
+vertex, the `for` loop over its incident edges succeeds, `iterations += 1`).  Last edge and state
+handed to the `for` loop are left arbitrary: under `UniformCost` they do not matter. -/
+inductive LoopHead (I : Inst α) (target : Option Nat) : List Nat → SState α → SState α → Prop
+  | here (sched : List Nat) (s : SState α) : LoopHead I target sched s s
+  | turn {v : Nat} {rest : List Nat} {s s2 s' : SState α} {lastEdge : Option Nat} {st : List α} :
+      popOk s.queue v = true → target ≠ some v →
+      relaxAll I target.isSome lastEdge st (I.incident v)
+        { s with queue := s.queue.filter (fun p => !(p.1 == v)) } = .ok s2 →
+      LoopHead I target rest { s2 with iters := s2.iters + 1 } s' →
+      LoopHead I target (v :: rest) s s'
+
+/-- the invariant holds at every loop head, for every schedule -/
+theorem loopHead_good {I : Inst α} {ok : Nat → Bool} {c hv : Nat → α} (U : UniformCost I ok c)
+    {source : Nat} {target : Option Nat} (hh : target.isSome = true → VertexH I hv)
+    {sched : List Nat} {s s' : SState α} (hreach : LoopHead I target sched s s')
+    (hgood : Good I ok c (Hf target.isSome hv) source target s.queue s.g) :
+    Good I ok c (Hf target.isSome hv) source target s'.queue s'.g := by
+  induction hreach with
+  | here => exact hgood
+  | @turn v rest s s2 s' lastEdge st hpop hvt hrel _ ih =>
+    obtain ⟨s2', h2, r2⟩ := relaxAll_spec U target.isSome hh lastEdge st (I.incident v)
+      { s with queue := s.queue.filter (fun p => !(p.1 == v)) }
+    rw [hrel] at h2
+    injection h2 with h2
+    subst h2
+    exact ih (turn_good U.incident_term U.cost_pos hgood hpop hvt r2)
+
 /-- induction principle for `runLoop`: every way the loop can end, with the loop-head invariant
 in hand at that moment.  Errors other than the ones listed are passed to `herr`; the only way an
 error `noPath` can arise other than from the empty queue is the termination model returning it. -/
@@ -678,6 +707,33 @@ theorem runAStar_ind {I : Inst α} {ok : Nat → Bool} {c hv : Nat → α} (U : 
     (sched : List Nat) : Post (runAStar I source target sched) := by
   rw [runAStar_eq hh hts]
   exact runLoop_ind U hh Post hnp hdone hpop herr sched _ (init_good I ok c _ source target)
+
+/-- export for other proofs: the labels of a successful run satisfy the loop-head invariant
+together with the queue `q` of the last loop head (empty without target; with the target as an
+accepted pop otherwise) -/
+theorem runAStar_ok_good {I : Inst α} {ok : Nat → Bool} {c hv : Nat → α} (U : UniformCost I ok c)
+    {source : Nat} {target : Option Nat} (hh : target.isSome = true → VertexH I hv)
+    (hts : target ≠ some source) {sched : List Nat} {s : SState α}
+    (hrun : runAStar I source target sched = .ok s) :
+    ∃ q, Good I ok c (Hf target.isSome hv) source target q s.g ∧
+      ((target = none ∧ q = [] ∧ s.queue = []) ∨
+       (∃ t, target = some t ∧ popOk q t = true ∧
+          s.queue = q.filter (fun p => !(p.1 == t)))) := by
+  refine runAStar_ind U hh hts
+    (fun r => ∀ s, r = .ok s → ∃ q, Good I ok c (Hf target.isSome hv) source target q s.g ∧
+      ((target = none ∧ q = [] ∧ s.queue = []) ∨
+       (∃ t, target = some t ∧ popOk q t = true ∧
+          s.queue = q.filter (fun p => !(p.1 == t))))) ?_ ?_ ?_ ?_ sched s hrun
+  · intro _ _ _ _ _ s h; cases h
+  · intro s0 hgood hq htar s' hs'
+    injection hs' with hs'
+    subst hs'
+    exact ⟨s0.queue, hgood, Or.inl ⟨htar, hq, hq⟩⟩
+  · intro s0 t hgood htar hpop s' hs'
+    injection hs' with hs'
+    subst hs'
+    exact ⟨s0.queue, hgood, Or.inr ⟨t, htar, hpop, rfl⟩⟩
+  · intro _ _ s h; cases h
 
 /-! ### Consequences of the invariants at the two kinds of final state -/
 
@@ -960,6 +1016,27 @@ theorem tree_labels_optimal {I : Inst α} {ok : Nat → Bool} {c : Nat → α} (
     rw [this]; simpa using hyle
   · intro _ _ _ htar; cases htar
   · intro _ _ s h; cases h
+
+/-! ### The reachability theorems in the packaged setting `Uniform` + `NoLimit` -/
+
+theorem nopath_imp_unreachable_uniform {I : Inst α} {ok : Nat → Bool} {c hv : Nat → α}
+    (U : Uniform I ok c hv) (hlim : NoLimit I) {source t : Nat} {sched : List Nat}
+    (hrun : runAStar I source (some t) sched = .error .noPath) :
+    ¬ ∃ es, Walk I ok source es t :=
+  nopath_imp_unreachable U.toUniformCost U.h_eq hlim.termNotNoPath hrun
+
+theorem ok_imp_reachable_uniform {I : Inst α} {ok : Nat → Bool} {c hv : Nat → α}
+    (U : Uniform I ok c hv) {source t : Nat} (hts : t ≠ source) {sched : List Nat}
+    {s : SState α} (hrun : runAStar I source (some t) sched = .ok s) :
+    ∃ d es, s.g t = some d ∧ Walk I ok source es t ∧ cost c es = d :=
+  ok_imp_reachable U.toUniformCost U.h_eq hts hrun
+
+theorem ok_iff_reachable_uniform {I : Inst α} {ok : Nat → Bool} {c hv : Nat → α}
+    (U : Uniform I ok c hv) (hlim : NoLimit I) {source t : Nat} {sched : List Nat}
+    (hres : (∃ s, runAStar I source (some t) sched = .ok s) ∨
+      runAStar I source (some t) sched = .error .noPath) :
+    (∃ s, runAStar I source (some t) sched = .ok s) ↔ ∃ es, Walk I ok source es t :=
+  ok_iff_reachable U.toUniformCost U.h_eq hlim.termNotNoPath hres
 
 /-! ### Admissibility from consistency (how the premise is discharged in practice) -/
 
